@@ -8,6 +8,7 @@ import Cfdm.Driver.C05
 import Cfdm.Driver.C18
 import Cfdm.Driver.C16
 import Cfdm.Driver.C19
+import Cfdm.Driver.C07
 open Cfdm.Driver
 
 def step (line : String) : String :=
@@ -27,6 +28,7 @@ def step (line : String) : String :=
       | ["C18", sub] => C18.run sub kv
       | ["C16", sub] => C16.run sub kv
       | ["C19", sub] => C19.run sub kv
+      | ["C07", sub] => C07.run sub kv
       | _ => "bad-op"
 
 partial def loop (h : IO.FS.Stream) : IO Unit := do
